@@ -381,6 +381,16 @@ func rPerm(name string) hackpadfs.FileMode {
 	return hackpadfs.FileMode(verifUint32(name))&0777 | 0700
 }
 
+// rOwner: the owner bits forced into every mode of the operation under test (so that the real os, when it is
+// the target, can still traverse and write). With NOFORCE=1 (in-memory targets only) nothing is forced: modes
+// such as 0, 0444 or 0555 are then exercised too.
+func rOwner(bits hackpadfs.FileMode) hackpadfs.FileMode {
+	if verifParam("NOFORCE") != 0 {
+		return 0
+	}
+	return bits
+}
+
 // rSymTree builds an arbitrary well-formed tree over the universe through the public API, in the
 // FS under test and in the model alike.
 func rSymTree(fs rFS, t *rTree) {
@@ -551,26 +561,26 @@ func rStep(fs rFS, t *rTree, op int, allowRootMutation bool) rResult {
 	switch op {
 	case 0:
 		perm := hackpadfs.FileMode(verifUint32("perm"))
-		r.err = hackpadfs.Mkdir(fs, p, perm|0700)
-		r.errno, r.epath = t.mkdir(p, perm|0700)
+		r.err = hackpadfs.Mkdir(fs, p, perm|rOwner(0700))
+		r.errno, r.epath = t.mkdir(p, perm|rOwner(0700))
 	case 1:
 		perm := hackpadfs.FileMode(verifUint32("perm"))
-		r.err = hackpadfs.MkdirAll(fs, p, perm|0700)
-		r.errno, r.epath = t.mkdirAll(p, perm|0700)
+		r.err = hackpadfs.MkdirAll(fs, p, perm|rOwner(0700))
+		r.errno, r.epath = t.mkdirAll(p, perm|rOwner(0700))
 	case 2:
 		flag := rFlag("flag")
 		perm := hackpadfs.FileMode(verifUint32("perm"))
-		f, err := hackpadfs.OpenFile(fs, p, flag, perm|0600)
+		f, err := hackpadfs.OpenFile(fs, p, flag, perm|rOwner(0600))
 		if err == nil {
 			verifAssert(f.Close() == nil, "Close of a freshly opened file failed")
 		}
 		r.err = err
-		r.errno, r.epath = t.openFile(p, flag, perm|0600)
+		r.errno, r.epath = t.openFile(p, flag, perm|rOwner(0600))
 	case 3:
 		perm := hackpadfs.FileMode(verifUint32("perm"))
 		data := verifBytes("data", verifChoice("len", 3))
-		r.err = hackpadfs.WriteFullFile(fs, p, data, perm|0600)
-		r.errno, r.epath = t.writeFile(p, data, perm|0600)
+		r.err = hackpadfs.WriteFullFile(fs, p, data, perm|rOwner(0600))
+		r.errno, r.epath = t.writeFile(p, data, perm|rOwner(0600))
 	case 4:
 		r.err = hackpadfs.Remove(fs, p)
 		r.errno, r.epath = t.remove(p)
@@ -599,8 +609,8 @@ func rStep(fs rFS, t *rTree, op int, allowRootMutation bool) rResult {
 		r.errno = t.rename(p, n)
 	case 7:
 		mode := hackpadfs.FileMode(verifUint32("mode"))
-		r.err = hackpadfs.Chmod(fs, p, mode|0700)
-		r.errno, r.epath = t.chmod(p, mode|0700)
+		r.err = hackpadfs.Chmod(fs, p, mode|rOwner(0700))
+		r.errno, r.epath = t.chmod(p, mode|rOwner(0700))
 	case 8:
 		sec := verifInt64("sec")
 		verifAssume(sec >= 1)
